@@ -47,6 +47,24 @@ def simJson : Outcome C → Json
   | .stall t => Json.mkObj [("outcome", "stall"), ("table", jarr (t.map rowJson))]
   | .fault f => Json.mkObj [("outcome", "fault"), ("fault", toString (repr f))]
 
+/-- reorder `l` to follow the name list `names` when that is a permutation of `l`'s names (else keep `l`) -/
+def reorder {α : Type} (name : α → C) (l : List α) (names : List C) : List α :=
+  let picked := names.filterMap (fun n => l.find? (fun x => name x == n))
+  if picked.length == l.length && names.length == l.length && l.all (fun x => names.contains (name x)) then picked else l
+
+/-- The order of `internal_units` (which valid sink-first order networkx returns) and of `in_ports` is not fixed by any
+property, but the simulator's tie-breaks depend on it.  When the harness passes the implementation's stored orders
+(`"order"`), the model simulates the *model's* processor listed in *that* order, so that diagrams are comparable. -/
+def withOrder (p : Proc C) (o : Option Json) : Proc C :=
+  match o with
+  | none => p
+  | some oj =>
+    let names (k : String) : List C := ((getStrs oj k).toOption.getD []).map c
+    { inPorts := reorder (·.name) p.inPorts (names "in"),
+      outPorts := reorder (·.model.name) p.outPorts (names "out"),
+      inOut := reorder (·.name) p.inOut (names "inout"),
+      internal := reorder (·.model.name) p.internal (names "internal") }
+
 def handlePipeline (j : Json) : Except String Json := do
   let d ← LoaderOps.decDesc (← j.getObjVal? "desc")
   let isa ← (← getArr j "isa").mapM (fun e => do
@@ -71,7 +89,7 @@ def handlePipeline (j : Json) : Except String Json := do
         | .error _ => return Json.mkObj [("proc", pj), ("isa", ij), ("prog", err "UndefElemError")]
         | .ok prog =>
           let progJ := jarr (prog.map (fun i => Json.mkObj [("srcs", jstrs (i.srcs.map s)), ("dst", s i.dst), ("cap", s i.cap)]))
-          let out := simulate p prog
+          let out := simulate (withOrder p (optField j "order")) prog
           let rows : Json := match out with
             | .done tbl => (match Cli.render String.ofList tbl parsed.length with
                 | .ok t => jarr (t.map jstrs)
